@@ -59,6 +59,7 @@ inline std::ostream& operator<<(std::ostream &os, type p) {
 inline std::istream& operator>>(std::istream &in, type &p) {
     std::string val;
     in >> val;
+    amgcl::detail::reject_trailing_text(in, val);
 
     if (val == "left")
         p = left;
